@@ -6,5 +6,19 @@ pid = sys.argv[1]; n = sys.argv[2] if len(sys.argv) > 2 else "3"
 prop = next(json.loads(l) for l in open(os.path.join(ROOT, "properties.jsonl")) if json.loads(l)["id"] == pid)
 text = json.dumps({k: prop[k] for k in ("title", "statement", "quantifier", "why_tests_cant", "anchors")}, indent=1)
 t = open(os.path.join(ROOT, "lib", "mutation_prompt.txt")).read()
+# later rounds: list the changes that already exist so that the new ones are different
+import glob
+have = []
+for mp in sorted(glob.glob(os.path.join(ROOT, "seeded", pid + "-*", "meta.json"))):
+    try:
+        have.append(json.load(open(mp)).get("title", ""))
+    except Exception:
+        pass
+rnd = sys.argv[3] if len(sys.argv) > 3 else ""
+if have and rnd:
+    t = t.replace("The property ({PID}):", "Earlier rounds already produced the following changes; yours must be DIFFERENT in mechanism "
+                  "and in the clause or input class they rely on (do not redo these or close variants):\n- " + "\n- ".join(have) +
+                  "\n\nThe property ({PID}):")
+    t = t.replace("{OUT}", "/tmp/mut%s-{PID}-out" % rnd).replace("{WT}", "/tmp/mut%s-{PID}" % rnd)
 print(t.replace("{WT}", "/tmp/mut-" + pid).replace("{OUT}", "/tmp/mut-%s-out" % pid).replace("{N}", n)
       .replace("{PID}", pid).replace("{PROP}", text))
